@@ -133,31 +133,65 @@ func usable(id uint16, v uint16, key string, curvesOK bool) bool {
 	return false
 }
 
-func execNeg(f []string) zv.Out {
+// negCfg is one (client configuration, server configuration) pair: the 14 fields of a `neg` line.
+type negCfg struct {
+	cmin, cmax   int
+	cs           []uint16
+	csNil, force bool
+	ccurves, ca  string
+	smin, smax   int
+	ss           []uint16
+	ssNil        bool
+	prefer       bool
+	scurves, sa  string
+	key, srand   string
+}
+
+func parseNeg(f []string) negCfg {
+	n := negCfg{cmin: atoi(f[0]), cmax: atoi(f[1]), force: f[3] == "1", ccurves: f[4], ca: f[5],
+		smin: atoi(f[6]), smax: atoi(f[7]), prefer: f[9] == "1", scurves: f[10], sa: f[11], key: f[12], srand: f[13]}
+	n.cs, n.csNil = parseList(f[2])
+	n.ss, n.ssNil = parseList(f[8])
+	return n
+}
+
+// configs builds fresh Config values (a configuration "reload") for both sides; session tickets are left to the caller.
+func (n negCfg) configs() (ccfg, scfg *tls.Config) {
 	pki := tlsrig.GetPKI()
-	cmin, cmax := atoi(f[2]), atoi(f[3])
-	cs, csNil := parseList(f[4])
-	smin, smax := atoi(f[8]), atoi(f[9])
-	ss, ssNil := parseList(f[10])
-	ccfg := &tls.Config{MinVersion: uint16(cmin), MaxVersion: uint16(cmax), ForceSuites: f[5] == "1",
-		CurvePreferences: curves(f[6]), NextProtos: protos(f[7]), RootCAs: pki.Roots, ServerName: tlsrig.Host}
-	if !csNil {
-		ccfg.CipherSuites = cs
+	ccfg = &tls.Config{MinVersion: uint16(n.cmin), MaxVersion: uint16(n.cmax), ForceSuites: n.force,
+		CurvePreferences: curves(n.ccurves), NextProtos: protos(n.ca), RootCAs: pki.Roots, ServerName: tlsrig.Host}
+	if !n.csNil {
+		ccfg.CipherSuites = n.cs
 	}
-	scfg := &tls.Config{MinVersion: uint16(smin), MaxVersion: uint16(smax), PreferServerCipherSuites: f[11] == "1",
-		CurvePreferences: curves(f[12]), NextProtos: protos(f[13]), Certificates: []tls.Certificate{pki.Leaf[f[14]]},
-		SessionTicketsDisabled: true}
-	if !ssNil {
-		scfg.CipherSuites = ss
+	scfg = &tls.Config{MinVersion: uint16(n.smin), MaxVersion: uint16(n.smax), PreferServerCipherSuites: n.prefer,
+		CurvePreferences: curves(n.scurves), NextProtos: protos(n.sa), Certificates: []tls.Certificate{pki.Leaf[n.key]}}
+	if !n.ssNil {
+		scfg.CipherSuites = n.ss
 	}
-	if c, ok := canaries[f[15]]; ok {
+	if c, ok := canaries[n.srand]; ok {
 		scfg.ServerRandom = append(bytes.Repeat([]byte{0x5a}, 24), c...)
 	}
-	res := tlsrig.Handshake(ccfg, scfg, tlsrig.Opts{})
+	return ccfg, scfg
+}
+
+// verdict of the single-connection oracle
+type verdict struct {
+	out         string // canonical outcome: "ok v= s= a= can=" | "fail"
+	viol        string
+	tags        []string
+	done        bool // both ends completed
+	vers, suite uint16
+	offered     []uint16 // the cipher suites the client really put on the wire
+	enabled     []uint16 // the suites the server's CURRENT configuration enables at the shared version
+}
+
+// judge evaluates the property on one finished handshake attempt (T3) and renders the canonical outcome (T2).
+func judge(n negCfg, ccfg, scfg *tls.Config, res *tlsrig.Result) verdict {
 	if res.Client.Panic != nil || res.Server.Panic != nil {
 		panic(fmt.Sprint("handshake panicked: ", res.Client.Panic, res.Server.Panic))
 	}
-	tags := []string{"key=" + f[14]}
+	cmin, cmax, smin, smax := n.cmin, n.cmax, n.smin, n.smax
+	tags := []string{"key=" + n.key}
 	viol := ""
 	addViol := func(s string) {
 		if viol == "" {
@@ -174,8 +208,8 @@ func execNeg(f []string) zv.Out {
 	}
 	// what the client really offered: parsed from the first record it put on the wire
 	offered := offeredSuites(res.ClientOut)
-	enabled := ss
-	if ssNil {
+	enabled := n.ss
+	if n.ssNil {
 		enabled = tls.ZVDefaultCipherSuites()
 	}
 	if shared == tls.VersionTLS13 {
@@ -184,17 +218,18 @@ func execNeg(f []string) zv.Out {
 	curvesOK := overlap(ccfg.CurvePreferences, scfg.CurvePreferences)
 	anyUsable := false
 	for _, id := range offered {
-		if contains(enabled, id) && usable(id, shared, f[14], curvesOK) {
+		if contains(enabled, id) && usable(id, shared, n.key, curvesOK) {
 			anyUsable = true
 		}
 	}
 	cok, sok := res.Client.Err == nil, res.Server.Err == nil
-	out := "fail"
+	vd := verdict{out: "fail", offered: offered, enabled: enabled}
 	if res.TimedOut {
 		addViol("handshake did not finish within the rig timeout")
 	}
 	if cok && sok {
 		c, s := res.Client.State, res.Server.State
+		vd.done, vd.vers, vd.suite = true, c.Version, c.CipherSuite
 		if c.Version != s.Version || c.CipherSuite != s.CipherSuite || c.NegotiatedProtocol != s.NegotiatedProtocol {
 			addViol(fmt.Sprintf("endpoints disagree: client (%x,%x,%q) server (%x,%x,%q)", c.Version, c.CipherSuite, c.NegotiatedProtocol, s.Version, s.CipherSuite, s.NegotiatedProtocol))
 		}
@@ -205,7 +240,7 @@ func execNeg(f []string) zv.Out {
 			addViol(fmt.Sprintf("negotiated version %x is not the highest shared version %x", c.Version, shared))
 		}
 		if !contains(offered, c.CipherSuite) || !contains(enabled, c.CipherSuite) {
-			addViol(fmt.Sprintf("negotiated suite %x was not enabled on both sides", c.CipherSuite))
+			addViol(fmt.Sprintf("negotiated suite %x was not enabled on both sides (client offers %v, server's current configuration enables %v)", c.CipherSuite, offered, enabled))
 		}
 		alpn := "-"
 		if c.NegotiatedProtocol != "" {
@@ -228,7 +263,7 @@ func execNeg(f []string) zv.Out {
 		if len(sv) > 0 {
 			srvMax = sv[0]
 		}
-		if c.Version <= tls.VersionTLS12 && srvMax > c.Version && srvMax >= tls.VersionTLS12 && f[15] == "n" && can == "n" {
+		if c.Version <= tls.VersionTLS12 && srvMax > c.Version && srvMax >= tls.VersionTLS12 && n.srand == "n" && can == "n" {
 			addViol(fmt.Sprintf("server max %x > negotiated %x but no downgrade sentinel in the server random", srvMax, c.Version))
 		}
 		// a client supporting a higher version must have aborted on a sentinel
@@ -236,7 +271,7 @@ func execNeg(f []string) zv.Out {
 		if can != "n" && cliMax > c.Version && (cliMax == tls.VersionTLS13 || (cliMax == tls.VersionTLS12 && can == "11")) {
 			addViol(fmt.Sprintf("client max %x completed a %x handshake although the server random carries downgrade sentinel %s", cliMax, c.Version, can))
 		}
-		out = fmt.Sprintf("ok v=%d s=%d a=%s can=%s", c.Version, c.CipherSuite, alpn, can)
+		vd.out = fmt.Sprintf("ok v=%d s=%d a=%s can=%s", c.Version, c.CipherSuite, alpn, can)
 		tags = append(tags, fmt.Sprintf("ok/v=%x", c.Version), "can="+can)
 	} else {
 		if cok != sok {
@@ -245,11 +280,20 @@ func execNeg(f []string) zv.Out {
 		tags = append(tags, "fail")
 		// the property's liveness half: a usable shared suite at a shared version ⇒ the handshake completes
 		scsv := contains(offered, tls.TLS_FALLBACK_SCSV)
-		if shared != 0 && anyUsable && !scsv && f[15] == "n" && !res.TimedOut {
+		if shared != 0 && anyUsable && !scsv && n.srand == "n" && !res.TimedOut {
 			addViol(fmt.Sprintf("configurations share version %x and a usable suite, yet the handshake failed: client=%v server=%v", shared, res.Client.Err, res.Server.Err))
 		}
 	}
-	return zv.Out{Go: out, Viol: viol, Tags: tags}
+	vd.viol, vd.tags = viol, tags
+	return vd
+}
+
+func execNeg(f []string) zv.Out {
+	n := parseNeg(f[2:16])
+	ccfg, scfg := n.configs()
+	scfg.SessionTicketsDisabled = true
+	vd := judge(n, ccfg, scfg, tlsrig.Handshake(ccfg, scfg, tlsrig.Opts{}))
+	return zv.Out{Go: vd.out, Viol: vd.viol, Tags: vd.tags}
 }
 
 // offeredSuites reads the cipher_suites vector of the ClientHello at the start of a captured client stream.
@@ -289,6 +333,8 @@ func exec(line string) zv.Out {
 	switch f[1] {
 	case "neg":
 		return execNeg(f)
+	case "seq":
+		return execSeq(f)
 	case "mv":
 		peer, _ := parseList(f[4])
 		cfg := &tls.Config{MinVersion: uint16(atoi(f[2])), MaxVersion: uint16(atoi(f[3]))}
@@ -482,9 +528,11 @@ func gen(g *zv.Gen) {
 		}
 		g.Emitf("c24 neg %d %d %s %d %s %s %d %d %s %d %s %s %s %s", cmin, cmax, cs, force, cc, ca, smin, smax, ss, r.Intn(2), sc, sa, keys[r.Intn(3)], sr)
 	}
+	// sequences of connections through one session cache while the configurations change
+	genSeq(g)
 }
 
 func init() {
 	zv.Register(&zv.Prop{ID: "C24", Topic: "c24", Gen: gen, Exec: exec,
-		Rule: "neg: random (client, server) configuration pairs over version ranges TLS1.0-1.3 (incl. unset/empty ranges) x default or random subsets of every implemented suite id (+TLS1.3 ids, rarely FALLBACK_SCSV) x ForceSuites x curve lists x ALPN lists x server preference flag x server key type (RSA, ECDSA, Ed25519) x optional forged downgrade sentinel; each is one real in-process handshake, a case is non-trivial when distinct; mv/deprio/sel: direct calls of mutualVersion, deprioritizeAES, selectCipherSuite+cipherSuiteOk on random arguments. T3: endpoint agreement (version, suite, ALPN, EKM), highest shared version, suite enabled on both sides, sentinel presence and client abort, and liveness (a usable shared suite at a shared version implies completion)"})
+		Rule: "neg: random (client, server) configuration pairs over version ranges TLS1.0-1.3 (incl. unset/empty ranges) x default or random subsets of every implemented suite id (+TLS1.3 ids, rarely FALLBACK_SCSV) x ForceSuites x curve lists x ALPN lists x server preference flag x server key type (RSA, ECDSA, Ed25519) x optional forged downgrade sentinel; each is one real in-process handshake, a case is non-trivial when distinct; mv/deprio/sel: direct calls of mutualVersion, deprioritizeAES, selectCipherSuite+cipherSuiteOk on random arguments. T3: endpoint agreement (version, suite, ALPN, EKM), highest shared version, suite enabled on both sides, sentinel presence and client abort, and liveness (a usable shared suite at a shared version implies completion). seq: sequences of 2-4 real connections through ONE ClientSessionCache against servers sharing explicit ticket keys (SetSessionTicketKeys) while the client and/or server configuration CHANGES between the connections: systematic = base configurations (TLS 1.0-1.2: random pairs of usable suites x RSA/ECDSA key; TLS 1.3: every ordered pair of TLS 1.3 suites) x 23 single changes (suite dropped / reordered / defaulted on either side, preference flag, version bounds down / up on either side, ticket key replaced / rotated / tickets off, cache off, certificate key type, curves (HelloRetryRequest), ForceSuites, ALPN), each also followed by the original configuration or a second change; random = walks of 1-3 random edits per connection over all those dimensions. Every connection is compared with the model (outcome, DidResume, cache entry kept / stored / dropped) and judged (T3): all single-connection checks against the CURRENT configurations (so a resumed suite must be offered now and enabled now, and a session that cannot be resumed must fall back to a full handshake whenever a version and usable suite are shared), both ends agree on DidResume, equal exporter output, application data flows, a resumed connection continues the cached session (ticket key listed now, same version, same suite / TLS 1.3 same hash, suite usable with the current key), unchanged configurations resume"})
 }
